@@ -85,7 +85,10 @@ def run(ctx):
     ctx.require(len(c26.held_path_deletes(ast.parse(c26.POSITIVE_CONTROL).body[0])[0]) == 2, "positive control failed")
     for meth in ("unlock", "force_break", "force_break_corrupt"):
         fn, g, where = fn_cfg(ctx, LD, f"LockDir.{meth}")
-        ren = need(where, calling(g, attr="rename", argpred=lambda c: len(c.args) == 2 and norm(c.args[0]) == "self._held_dir"), "rename(held, tmp)")
+        ren = calling(g, attr="rename", argpred=lambda c: len(c.args) == 2 and norm(c.args[0]) == "self._held_dir")
+        if not ren:
+            ctx.check("R3-rename-before-delete", where, False, "held/ is renamed to a tmp name before anything is deleted", message=f"{meth} takes the held directory apart in place (no atomic rename first): a crash in between leaves held/ without readable holder info")
+            continue
         dels = need(where, calling(g, attr=c26.DELETES), "deletes")
         k1_before(ctx, "R3-rename-before-delete", where, g, ren, dels, "deletes come after the atomic rename to a tmp name")
         if meth == "unlock":
